@@ -354,6 +354,17 @@ def run_harness(binname, profile, lines, shards=16):
                 except subprocess.TimeoutExpired:
                     hangs += 1
                     out.append("T")
+            # a timeout under a loaded machine is not a non-terminating call: every `T` gets one
+            # more run with a generous limit before it is reported (bounded: at most 8 such reruns)
+            for i, r in enumerate(out):
+                if r == "T" and hangs <= 8:
+                    try:
+                        q = subprocess.run([exe], input=chunk[i] + "\n", stdout=subprocess.PIPE,
+                                           stderr=subprocess.PIPE, text=True, timeout=12 * LINE_TIMEOUT)
+                        o = q.stdout.splitlines()
+                        out[i] = o[0] if (q.returncode == 0 and len(o) == 1) else "P"
+                    except subprocess.TimeoutExpired:
+                        pass
         return out
 
     with ThreadPoolExecutor(max_workers=k) as ex:
